@@ -37,7 +37,7 @@ def _nontrivial(fields):
         return obs.split("|")[2] != "R"
     if k == "R":
         return obs.split("|")[0] != "R"
-    if k in ("N", "C", "W"):
+    if k in ("N", "C", "W", "K"):
         return True
     return False  # G and S are glue families
 
@@ -80,6 +80,8 @@ def run(ctx, res):
             key = "E:" + obs.split("|")[2]
         elif k == "R":
             key = "R:" + f[1] + ":" + obs.split("|")[0]
+        elif k == "K":
+            key = "K:" + f[1] + ":" + obs.split("|")[0]
         elif k == "N":
             key = "N:" + ("none" if obs == "none" else "reply")
         elif k == "W":
@@ -101,7 +103,13 @@ def run(ctx, res):
         "over int32 boundaries, all predefined codes +-5 and random int32 through 6 carriers; EXHAUSTIVE nesting over 12 "
         "representative leaves: all Wrap/Join(<=2, and all 3-joins of leaves) terms to depth 2 (thorough: depth 3 with "
         "one non-leaf operand per join); random terms to depth 6 over rich message/data pools. R: results json.Marshal "
-        "rejects (12 kinds) and Marshalers failing with an error term. N: the same as notifications. C: "
+        "rejects (12 kinds) and Marshalers failing with an error term. N: the same as notifications. K: the handler returns "
+        "(value, error term) only after the server-side context of its own request is done - Server.CancelRequest(req.ID()) "
+        "from the handler (self) or from a goroutine it waits for (helper), cancellation of the ServerOptions.NewContext "
+        "context (base), or its deadline passing (deadline), plus a live control on the same server: every leaf of the "
+        "basis, every depth-1 term over the 12 representative leaves and corner terms in the three cancellation modes, the "
+        "representative terms under a deadline (thorough: all), good / raw / unmarshalable results in all modes, random "
+        "terms to depth 4; the handler checks that it saw ctx.Err() as the mode requires. C: "
         "ErrorCode(Code(c).Err()). W: WithData (receiver kept, copy/same pointer, nil receiver). G,S: glue families "
         "for the encoding/json contracts. Compared per case: ErrorCode and Error() of the built error, kind of the "
         "error Call returns (*Error / exact sentinel / none / lost), its ErrorCode, message, data. Non-trivial = distinct "
@@ -110,12 +118,14 @@ def run(ctx, res):
     res.extra["outcome_distribution"] = dist
     res.extra["exhaustive"] = ("all terms of depth <= 2 over the 12-leaf basis (joins of width <= 2, 3-joins of leaves)"
                                + ("; depth 3 with one non-leaf operand per join" if ctx["tier"] == "thorough" else ""))
-    order = ["E:J", "E:C", "E:D", "E:L", "R:u:J", "R:m:C", "N:reply", "W:copy"]
+    order = ["E:J", "E:C", "E:D", "K:self:J", "K:deadline:J", "R:u:J", "N:reply", "W:copy"]
     res.samples = [samples[k] for k in order if k in samples][:8]
     what = {
         "E": "the error reaching the caller (or ErrorCode/Error() of the handler's error) differs from the specification",
         "R": "the reply to a call whose result cannot be marshalled differs from the specification",
         "N": "the server's reaction to a failing notification differs from the specification",
+        "K": "the reply to a call whose context was done when its handler returned is not the one for what the handler "
+             "returned (c14_cancellation_does_not_replace_error)",
         "C": "ErrorCode(Code(c).Err()) or its text differs from the specification",
         "W": "Error.WithData modified its receiver or built a different copy",
         "G": "json.Marshal(json.RawMessage) differs from the modelled contract (glue)",
